@@ -164,6 +164,19 @@ def task_np(*args):
     return chunk * 2
 
 
+class PhaseFail:
+    """picklable callable: worker_init / worker_exit that raises a given exception (distinct per call)"""
+
+    def __init__(self, phase, exc, tag, bits=None):
+        self.phase, self.exc, self.tag, self.bits = phase, exc, tag, bits
+
+    def __call__(self, *args):
+        layout = None if self.bits is None else [n for n, b in zip(('wid', 'shared', 'state'), self.bits) if b == '1']
+        ex, targs = split_extras(args, layout)
+        _log(self.phase, args=canon(targs), **_describe_extras(ex))
+        raise make_exception(self.exc, self.tag)
+
+
 def init(*args, _layout=None):
     ex, targs = split_extras(args, _layout)
     _log('init', args=canon(targs), **_describe_extras(ex))
